@@ -3,5 +3,4 @@
 From TL Require Import Lib.Base Model.Dispatch.
 
 Definition dispatch_actual : quirks := {|
-  q_shebang_any_ext := true;
-  q_foreign_reject_aborts := true |}.
+  q_shebang_any_ext := true |}.
